@@ -158,3 +158,21 @@ void bad_map_hist__search(void) {
 		fp_add_dig(ctx->ep_map_u, ctx->ep_map_u, 1);
 	} while (fp_is_sqr(ctx->ep_map_u));
 }
+
+/* RHS-SHAPE */
+void ok_rhs_shape(fp_t c0, const fp_t u) {
+	ctx_t *ctx = core_get();
+	fp_sqr(c0, u);
+	fp_add(c0, c0, ctx->ep_a);
+	fp_mul(c0, c0, u);
+	fp_add(c0, c0, ctx->ep_b);
+}
+
+/* (c1^2 + a) * u + b is not g of anything */
+void bad_rhs_shape__other_multiplier(fp_t c0, const fp_t c1, const fp_t u) {
+	ctx_t *ctx = core_get();
+	fp_sqr(c0, c1);
+	fp_add(c0, c0, ctx->ep_a);
+	fp_mul(c0, c0, u);
+	fp_add(c0, c0, ctx->ep_b);
+}
